@@ -179,6 +179,9 @@ func init() {
 		c.OnlyRules = map[string]bool{"C18.A": true}
 		g(c, "c18Storage", c18Storage)
 		c.OnlyRules = nil
+		// one leader per term is a premise of log matching (one entry per (index, term))
+		g(c, "gElect", gElect)
+		g(c, "gQuorumJoint", gQuorumJoint)
 	}})
 	register(&PropertyRule{ID: "C18", Explain: "structural necessary conditions of C18 (log storage views): see DESIGN.md §5 C18", Run: func(c *Check) {
 		g(c, "c18Storage", c18Storage)
